@@ -9,10 +9,14 @@ import (
 	"errors"
 	"time"
 
+	"github.com/cenkalti/backoff/v5"
+
 	"go.uber.org/zap"
 
+	"go.opentelemetry.io/collector/component"
 	"go.opentelemetry.io/collector/config/configretry"
 	"go.opentelemetry.io/collector/consumer/consumererror"
+	"go.opentelemetry.io/collector/exporter"
 	"go.opentelemetry.io/collector/exporter/exporterhelper/internal/experr"
 	"go.opentelemetry.io/collector/exporter/exporterhelper/internal/request"
 	"go.opentelemetry.io/collector/exporter/exporterhelper/internal/sender"
@@ -43,8 +47,15 @@ func (vc05Partial) Error() string { return "partial failure" }
 
 var vc05Backoffs []time.Duration
 
+var vc05Cfg configretry.BackOffConfig
+
 // vc05NextBackOff replaces (*backoff.ExponentialBackOff).NextBackOff: an arbitrary non-negative duration.
-func vc05NextBackOff() time.Duration {
+// The envelope itself is floating point and outside the claim, but the object computing it must
+// carry exactly the configured envelope parameters.
+func vc05NextBackOff(b *backoff.ExponentialBackOff) time.Duration {
+	vAssert(b.InitialInterval == vc05Cfg.InitialInterval, "backoff-envelope-uses-the-configured-initial-interval")
+	vAssert(b.MaxInterval == vc05Cfg.MaxInterval, "backoff-envelope-uses-the-configured-max-interval")
+	vAssert(b.Multiplier == vc05Cfg.Multiplier && b.RandomizationFactor == vc05Cfg.RandomizationFactor, "backoff-envelope-uses-the-configured-multiplier-and-randomization")
 	d := time.Duration(vNondetInt64("backoff"))
 	vAssume(d >= 0 && d <= 1<<40)
 	vc05Backoffs = append(vc05Backoffs, d)
@@ -128,8 +139,12 @@ func VerifC05Retry() {
 		return a.err
 	})
 
+	vc05Cfg = configretry.BackOffConfig{Enabled: true, MaxElapsedTime: maxElapsed,
+		InitialInterval: time.Duration(vNondetInt64("initial_interval")), MaxInterval: time.Duration(vNondetInt64("max_interval")),
+		Multiplier: 1.5, RandomizationFactor: 0.5}
+	vAssume(vc05Cfg.InitialInterval > 0 && vc05Cfg.MaxInterval > 0 && vc05Cfg.InitialInterval <= 1<<40 && vc05Cfg.MaxInterval <= 1<<40)
 	rs := &retrySender{
-		cfg:    configretry.BackOffConfig{Enabled: true, MaxElapsedTime: maxElapsed},
+		cfg:    vc05Cfg,
 		stopCh: make(chan struct{}),
 		logger: zap.NewNop(),
 		next:   next,
@@ -200,4 +215,31 @@ func VerifC05Retry() {
 	if n > 1 {
 		vReach("retried")
 	}
+}
+
+// VerifC05AfterShutdown: once shutdown has been requested EVERY later retry wait is interrupted —
+// not only the first one: each of several requests sent afterwards ends after its first failed
+// attempt with an error classified as shutdown (so a persistent queue keeps it).
+func VerifC05AfterShutdown() {
+	vc05Backoffs = nil
+	vc05Cfg = configretry.BackOffConfig{Enabled: true, InitialInterval: time.Second, MaxInterval: time.Minute, Multiplier: 1.5, RandomizationFactor: 0.5}
+	attempts := 0
+	next := sender.NewSender(func(context.Context, request.Request) error {
+		attempts++
+		return errors.New("transient")
+	})
+	rs := &retrySender{cfg: vc05Cfg, stopCh: make(chan struct{}), logger: zap.NewNop(), next: next}
+	rs2 := newRetrySender(vc05Cfg, exporter.Settings{TelemetrySettings: component.TelemetrySettings{Logger: zap.NewNop()}}, next)
+	if vChoice("built-by-constructor", 2) == 1 {
+		rs = rs2
+	}
+	vAssert(rs.Shutdown(context.Background()) == nil, "after-shutdown/shutdown-ok")
+	N := vParam("requests")
+	for i := 0; i < N; i++ {
+		before := attempts
+		err := rs.Send(context.Background(), &vc05Req{id: i, items: 1})
+		vAssert(attempts == before+1, "after-shutdown/no-retry-while-shutting-down")
+		vAssert(experr.IsShutdownErr(err), "after-shutdown/every-interrupted-wait-ends-with-a-shutdown-error")
+	}
+	vReach("end")
 }
